@@ -38,17 +38,18 @@ def run(ck):
     data1 = km.datasets(n1, 1, vals)
     inits1 = km.initsets(2, 1, vals)
     comps1 = list(km.compositions(n1))
-    if quick:
-        comps1 = [c for c in comps1 if len(c) <= 2]
+    comps1 = [c for c in comps1 if len(c) <= (2 if quick else 3)]
+    if not quick:
+        data1 = rng.sample(data1, 70)
     g_num = km.model_run(ck, "numeric-1d", ck.work, n1, 1, 2, data1, inits1, comps1, [4], [F(-1)], coverage=cov)
-    stop_data = rng.sample(data1, 12 if quick else 60)
+    stop_data = rng.sample(data1, 12 if quick else 40)
     g_stop = km.model_run(ck, "stop-rule", ck.work, n1, 1, 2, stop_data, inits1, [(n1,)], [0, 1, 2, 4, km.NOCAP], THRS,
                           coverage=cov)
     # 2-D, three clusters
     vals2 = [0, 1, 3]
     n2 = 4 if quick else 5
-    data2 = rng.sample(km.datasets(n2, 2, vals2), 40 if quick else 400)
-    inits2 = rng.sample(km.initsets(3, 2, vals2), 6 if quick else 30)
+    data2 = rng.sample(km.datasets(n2, 2, vals2), 40 if quick else 150)
+    inits2 = rng.sample(km.initsets(3, 2, vals2), 6 if quick else 12)
     g_2d = km.model_run(ck, "numeric-2d-k3", ck.work, n2, 2, 3, data2, inits2, [(n2,), (1, n2 - 1)], [3],
                         [F(-1), F(1, 100)], coverage=cov)
     # the deviating variant must be refuted (the property is not vacuous on this domain)
@@ -94,9 +95,9 @@ def run(ck):
                                   "input": mode or "numpy", "dtype": dt or "float64",
                                   "transform": tf.describe() if tf else None, "detail": detail})
 
-    replay(g_num, "1d", 40 if quick else 0)
-    replay(g_stop, "stop", 0, dask_share=0.15 if quick else 1.0)
-    replay(g_2d, "2d", 20 if quick else 0)
+    replay(g_num, "1d", 40 if quick else 500)
+    replay(g_stop, "stop", 0 if quick else 400, dask_share=0.15 if quick else 0.5)
+    replay(g_2d, "2d", 20 if quick else 300)
     ck.extra["m2_scenarios"] = nscn
     ck.extra["m2_outcomes"] = dict(outcomes)
 
